@@ -28,7 +28,7 @@ private:
 
     bool operator<(const PValue_& pvalue) const
     {
-      return pvalue.pvalue_ < pvalue_;
+      return pvalue_ < pvalue.pvalue_;
     }
   };
 
